@@ -305,6 +305,22 @@ func (c *c10Run) batchDB(bc *c10BatchCase) {
 		}
 		r.Evaluations++
 
+		// raw staged order buckets (+ the visible tier value), for the model of copyOrder
+		type staged struct {
+			nonce   string
+			src     *c10OrderRec
+			dstTier []byte
+		}
+		var stagedRecs []staged
+		for _, ns := range rd.NewOrders {
+			n := order.Nonce(arr32(ns.Nonce))
+			b, mu, tl, ti, ok := db.VerifC10RawPendingOrder(n)
+			_, _, _, vt, _ := db.VerifC10RawOrder(n)
+			if ok {
+				stagedRecs = append(stagedRecs, staged{ns.Nonce, &c10OrderRec{b, mu, tl, ti}, vt})
+			}
+		}
+
 		if rd.Delete {
 			if err := db.DeletePendingBatch(); err != nil {
 				r.Count("batchdb/delete-error")
@@ -330,6 +346,14 @@ func (c *c10Run) batchDB(bc *c10BatchCase) {
 			emitO[s.Nonce] = true
 		}
 		checkAll("MarkBatchComplete", emitA, emitO)
+		for _, st := range stagedRecs {
+			b, mu, tl, ti, ok := db.VerifC10RawOrder(order.Nonce(arr32(st.nonce)))
+			if ok {
+				r.Emit("C10 copyord "+st.nonce+" "+st.src.tokens()+" "+optHex(st.dstTier),
+					"ok "+(&c10OrderRec{b, mu, tl, ti}).tokens())
+				r.Count("batchdb/copy-order")
+			}
+		}
 		if rd.ReopenApplied {
 			reopen()
 			checkAll("MarkBatchComplete+reopen", emitA, emitO)
